@@ -1455,7 +1455,11 @@ class IRGenerator:
                             *loc)
                 else:
                     # Referring to a field that's a member of this type
-                    assert type_context is not None
+                    if type_context is None:
+                        raise InvalidSpec(
+                            'Bad doc reference to field %s: outside of a struct '
+                            'or union, use TypeName.field_name.' % quote(val),
+                            *loc)
                     if not any(field.name == val
                                for field in type_context.all_fields):
                         raise InvalidSpec(
